@@ -46,25 +46,68 @@ def match_d8(payload):
 
 
 def match_negative_dst(payload):
-    """tzstr/tzrange with a daylight offset smaller than the standard offset (negative saving)."""
+    """tzstr/tzrange with a daylight offset smaller than the standard offset (negative saving), at an instant
+    or wall reading within 2 x |saving| of a transition of the rule (the defect is local to the transitions;
+    elsewhere a difference is NOT explained by it)."""
     inp = payload.get("input") or {}
     r = inp.get("rule")
     ds = r.get("dst") if isinstance(r, dict) else None
-    return (payload.get("kind", "").startswith("implementation differs from the POSIX specification")
-            and inp.get("zone_kind") in ("tzstr", "tzrange") and bool(ds) and ds["off"] < r["off"])
+    if not (payload.get("kind", "").startswith("implementation differs from the POSIX specification")
+            and inp.get("zone_kind") in ("tzstr", "tzrange") and bool(ds) and ds["off"] < r["off"]):
+        return False
+    dist = inp.get("event_distance_s")
+    return isinstance(dist, int) and dist <= 2 * (r["off"] - ds["off"])
 
 
 def match_tzlocal_negative_dst(payload):
-    """tzlocal under a TZ whose daylight offset is smaller than the standard offset."""
+    """tzlocal under a TZ whose daylight offset is smaller than the standard offset, the two samples of
+    CPython's time module differing (the defect explains every instant of the year)."""
     inp = payload.get("input") or {}
     r = inp.get("rule")
     ds = r.get("dst") if isinstance(r, dict) else None
-    return (payload.get("kind", "").startswith("implementation differs from the POSIX specification")
-            and inp.get("zone_kind") == "tzlocal" and bool(ds) and ds["off"] < r["off"])
+    smp = inp.get("sample_isdst") or [0, 1]
+    return (payload.get("kind", "") == "implementation differs from the POSIX specification at a UTC instant"
+            and inp.get("zone_kind") == "tzlocal" and bool(ds) and ds["off"] < r["off"] and smp[0] != smp[1])
+
+
+def match_tzlocal_unsampled(payload):
+    """tzlocal under a TZ with a daylight part for which CPython's time module reports daylight = 0 (its two
+    samples show the same UTC offset): tzlocal answers (-time.timezone, dst 0, time.tzname[0]) all year; exactly
+    the instants where the specification says something else are explained by the defect."""
+    inp = payload.get("input") or {}
+    r = inp.get("rule")
+    ds = r.get("dst") if isinstance(r, dict) else None
+    tm = inp.get("time_module")
+    impl, sp = payload.get("impl") or [], payload.get("spec") or []
+    return (payload.get("kind", "") == "implementation differs from the POSIX specification at a UTC instant"
+            and inp.get("zone_kind") == "tzlocal" and bool(ds) and isinstance(tm, list) and len(tm) == 5
+            and tm[2] == 0 and len(impl) == 6 and impl[3:] == [tm[0], 0, tm[3]]
+            and len(sp) == 3 and sp != [tm[0], 0, tm[3]])
+
+
+def match_posix_form_rejected(form):
+    def m(payload):
+        inp = payload.get("input") or {}
+        return (payload.get("kind", "") == "POSIX TZ string rejected" and inp.get("form") == form
+                and payload.get("impl") == [1])
+    return m
+
+
+def match_deprecated_typeerror(payload):
+    """deprecated comma format (8 or 9 commas) WITHOUT a standard offset: `None + int` in _tzparser.parse"""
+    inp = payload.get("input") or {}
+    return (payload.get("kind", "") == "TypeError instead of a zone or ValueError"
+            and inp.get("commas") in (8, 9) and inp.get("parsed_stdoffset") is None
+            and payload.get("impl") == [2] and payload.get("model") == [2])
 
 
 MATCHERS = {"c08_negative_dst_saving": match_negative_dst,
+            "c08_quoted_names_rejected": match_posix_form_rejected("quoted_name"),
+            "c08_offset_seconds_rejected": match_posix_form_rejected("offset_seconds"),
+            "c08_signed_rule_time_rejected": match_posix_form_rejected("signed_rule_time"),
+            "c08_deprecated_format_typeerror": match_deprecated_typeerror,
             "c08_tzlocal_negative_dst_saving": match_tzlocal_negative_dst,
+            "c08_tzlocal_unsampled_daylight_window": match_tzlocal_unsampled,
             "c08_d8_rule_time_outside_standard_day": match_d8}
 
 
@@ -147,6 +190,23 @@ def compare_zone(verdict, st, o, zone_kind, z, r, s, guards, in_guard, us, ws, m
     st.evals += len(us) + len(ws)
     base_inp = dict(extra_input)
     base_inp.update({"zone_kind": zone_kind, "rule": r, "s": s, "guards": guards})
+    ev_cache = {}
+
+    def event_distance(ts):
+        """seconds from the nearest transition of the rule (UTC) to any of the UTC readings ts"""
+        if r is None or r["dst"] is None:
+            return None
+        best = None
+        for t in ts:
+            y = P.dt_of(t).year
+            for yy in (y - 1, y, y + 1):
+                if yy not in ev_cache:
+                    ev_cache[yy] = o.call(P.E_EVENTS, P.enc_posix(r) + [yy]) if 1 < yy < 9999 else []
+                for e in ev_cache[yy]:
+                    if best is None or abs(t - e) < best:
+                        best = abs(t - e)
+        return best
+
     spec_u = spec_w = spec_f = None
     if r is not None:
         spec_u = P.dec_spec_utc(o.call(P.E_SPEC_UTC, P.enc_posix(r) + us), len(us)) if us else []
@@ -164,6 +224,8 @@ def compare_zone(verdict, st, o, zone_kind, z, r, s, guards, in_guard, us, ws, m
         if spec_bad and (in_guard or model_bad or not in_guard):
             inp = dict(base_inp)
             inp.update({"utc": u, "utc_iso": P.dt_of(u).isoformat()})
+            if not in_guard:
+                inp["event_distance_s"] = event_distance([u])
             if in_guard or not model_bad:
                 # inside the theorem's guard every difference is a property violation; outside the
                 # guard it is reported too (routed to a known finding when its matcher accepts it)
@@ -188,6 +250,8 @@ def compare_zone(verdict, st, o, zone_kind, z, r, s, guards, in_guard, us, ws, m
             st.spec_diff += 1
             inp = dict(base_inp)
             inp.update({"wall": w, "fold": f, "wall_iso": P.dt_of(w).isoformat()})
+            if not in_guard and r is not None and r["dst"] is not None:
+                inp["event_distance_s"] = event_distance([w - r["off"], w - r["dst"]["off"]])
             n_bad += verdict.violation({"kind": "implementation differs from the POSIX specification "
                                                 "at a wall reading", "input": inp, "impl": iw,
                                         "spec": {"class": sp[0], "obs": sp[1]}, "in_guard": in_guard})
@@ -362,72 +426,126 @@ def check_rule(verdict, st, o, r, rng, years, idx, tier, do_local):
         check_local(verdict, st, o, r, canon, guards, in_guard, us, ws)
 
 
+def spec_isdst_of(r, sp):
+    """tm_isdst the specification implies for its answer sp = [offset, saving, abbreviation]"""
+    ds = r["dst"]
+    if ds is None:
+        return 0
+    if sp[1] != 0:
+        return 1
+    if ds["off"] == r["off"]:
+        return 1 if (sp[2] == ds["name"] and ds["name"] != r["name"]) else 0
+    return 0
+
+
 def check_local(verdict, st, o, r, s, guards, in_guard, us, ws):
+    """tzlocal under TZ=<canonical string>.  Three parties: dateutil's tzlocal, the extracted model
+    (tzlocal over CPython's time module over the SPEC as C library), and real glibc as witness."""
     from dateutil import tz
     import time as T
     lo, hi = P.ystart(1971), P.ystart(2400)
     us = [u for u in us if lo < u < hi][::2]
     ws = [(w, f) for (w, f) in ws if lo < w < hi][::4]
     enc = P.enc_posix(r)
+    neg = r["dst"] is not None and r["dst"]["off"] < r["off"]
     with P.tz_env(s):
         z = tz.tzlocal()
-        want_std = r["off"]
-        want_dst = r["dst"]["off"] if r["dst"] else r["off"]
-        got = (int(z._std_offset.total_seconds()), int(z._dst_offset.total_seconds()))
-        names_ok = (T.tzname[0] == r["name"] and (r["dst"] is None or T.tzname[1] == r["dst"]["name"]))
-        neg = r["dst"] is not None and r["dst"]["off"] < r["off"]
-        if got != (want_std, want_dst) or not names_ok:
-            swapped = (r["dst"] is not None and got == (want_dst, want_std) and
-                       T.tzname[0] == r["dst"]["name"] and T.tzname[1] == r["name"])
-            if not (neg and swapped):
-                st.bump("tzlocal_skipped_libc_read_the_string_differently")
-                return
-            # negative saving: CPython's time.timezone / altzone / tzname are the January / July pair,
-            # tzlocal takes them for the (isdst=0, isdst=1) pair -> compared with the spec below
-            st.bump("tzlocal_negative_saving_time_module_pair_swapped")
+        tj, tl = P.cpython_time_module_samples()
+        smp = P.dec_spec_utc(o.call(P.E_SPEC_UTC, enc + [tj, tl]), 2)
+        sample_isdst = [spec_isdst_of(r, x) for x in smp]
+        # glibc at the two samples against the spec: when glibc reads the string differently, what the
+        # time module holds says nothing about dateutil
+        libc_smp = [P.libc_obs(t) for t in (tj, tl)]
+        if any([lb[0], lb[2]] != [sp[0], sp[2]] for lb, sp in zip(libc_smp, smp)):
+            st.bump("tzlocal_skipped_glibc_differs_from_spec_at_the_time_module_samples")
+            if len(st.samples) < 30:
+                st.samples.append({"libc_vs_spec_at_samples": s, "libc": libc_smp, "spec": smp})
+            return
+        mv = o.call(P.E_LOCAL_INIT, enc + [tj, tl])
+        sn, i = P.read_name(mv, 3)
+        dn, i = P.read_name(mv, i)
+        tm_model = [mv[0], mv[1], mv[2], sn, dn]
+        tm_impl = [-T.timezone, -T.altzone, 1 if T.daylight else 0, T.tzname[0], T.tzname[1]]
+        base = {"zone_kind": "tzlocal", "TZ": s, "rule": r, "guards": guards, "time_module": tm_impl,
+                "sample_isdst": sample_isdst}
+        if tm_impl != tm_model:
+            # CPython's time module is not what the model of init_timezone() computes from the spec
+            st.model_diff += 1
+            verdict.violation({"kind": "correspondence: time.timezone/altzone/daylight/tzname differ from the "
+                                       "model of CPython's init_timezone over the specification",
+                               "input": base, "impl": tm_impl, "model": tm_model}, concrete=False)
+            return
+        hdr_i = [int(z._std_offset.total_seconds()), int(z._dst_offset.total_seconds()),
+                 1 if z._hasdst else 0, list(z._tznames)]
+        dst_m = tm_model[1] if tm_model[2] else tm_model[0]
+        hdr_m = [tm_model[0], dst_m, 1 if dst_m != tm_model[0] else 0, [tm_model[3], tm_model[4]]]
+        if hdr_i != hdr_m:
+            st.model_diff += 1
+            verdict.violation({"kind": "correspondence: tzlocal.__init__ attributes differ from the model",
+                               "input": base, "impl": hdr_i, "model": hdr_m}, concrete=False)
+            return
         st.bump("tzlocal_zones")
+        st.bump("tzlocal_samples_%d%d%s" % (sample_isdst[0], sample_isdst[1], "_negative" if neg else ""))
         spec_u = P.dec_spec_utc(o.call(P.E_SPEC_UTC, enc + us), len(us)) if us else []
-        # glibc as witness for the SPEC (not a verdict about dateutil)
-        for k, u in enumerate(us):
-            lb = P.libc_obs(u)
-            if [lb[0], lb[2]] != [spec_u[k][0], spec_u[k][2]]:
-                st.bump("libc_vs_spec_disagreements")
-                if len(st.samples) < 30:
-                    st.samples.append({"libc_vs_spec": s, "utc": P.dt_of(u).isoformat(), "libc": lb,
-                                       "spec": spec_u[k]})
-            else:
-                st.bump("libc_vs_spec_agreements")
-        # tzlocal vs spec (UTC) -- tzlocal has no D8 defect: guard is wf + apart only
-        g_local = guards["wf"] and (guards["apart"] or neg)
+        mu = o.call(P.E_LOCAL_UTC, enc + [tj, tl] + us) if us else []
+        model_u, i = [], 0
+        for _ in us:
+            nm, j = P.read_name(mu, i + 4)
+            model_u.append([0, mu[i], mu[i + 1], mu[i + 2], mu[i + 3], nm])
+            i = j
+        # tzlocal needs no D8 guard and no distance guard (C08_tzlocal_posix_partial); the spec's own
+        # 3-year window needs the events to stay near their year: wf + apart (or a negative saving)
+        g_local = guards["wf"] and (guards["apart"] or neg or (r["dst"] is not None and
+                                                               r["dst"]["off"] == r["off"]))
         for k, u in enumerate(us):
             iu = P.impl_obs_utc(z, u)
             st.evals += 1
             sp = spec_u[k]
-            if g_local and (iu[0] != 0 or [iu[3], iu[4], iu[5]] != sp or iu[1] != u + sp[0]):
+            lb = P.libc_obs(u)
+            libc_ok = [lb[0], lb[2]] == [sp[0], sp[2]]
+            st.bump("libc_vs_spec_agreements" if libc_ok else "libc_vs_spec_disagreements")
+            if not libc_ok and len(st.samples) < 30:
+                st.samples.append({"libc_vs_spec": s, "utc": P.dt_of(u).isoformat(), "libc": lb, "spec": sp})
+            # the model runs tzlocal over the SPEC as C library: comparable where glibc agrees with the spec
+            if libc_ok and iu[:2] + iu[3:] != model_u[k][:2] + model_u[k][3:]:
+                st.model_diff += 1
+                verdict.violation({"kind": "correspondence: tzlocal differs from the tzlocal model run over the "
+                                           "specification as C library (UTC instant)",
+                                   "input": dict(base, utc=u, utc_iso=P.dt_of(u).isoformat()),
+                                   "impl": iu, "model": model_u[k], "spec": sp}, concrete=False)
+                continue
+            if g_local and libc_ok and (iu[0] != 0 or [iu[3], iu[4], iu[5]] != sp or iu[1] != u + sp[0]):
                 st.spec_diff += 1
                 verdict.violation({"kind": "implementation differs from the POSIX specification at a UTC instant",
-                                   "input": {"zone_kind": "tzlocal", "TZ": s, "rule": r, "utc": u,
-                                             "utc_iso": P.dt_of(u).isoformat(), "guards": guards},
-                                   "impl": iu, "spec": sp, "in_guard": g_local})
+                                   "input": dict(base, utc=u, utc_iso=P.dt_of(u).isoformat(),
+                                                 spec_isdst=spec_isdst_of(r, sp)),
+                                   "impl": iu, "spec": sp, "libc": lb, "in_guard": g_local})
         if ws:
-            mw = o.call(P.E_LOCAL_WALL, enc + [x for wf in ws for x in wf])
+            mw = o.call(P.E_LOCAL_WALL, enc + [tj, tl] + [x for wf in ws for x in wf])
             mw = P.dec_spec_utc(mw, len(ws))
             sw = spec_wall_expect(o, r, ws)
+            routed = neg or tm_model[2] == 0        # F-C08-4 / F-C08-5: judged at the UTC instants
             for k, (w, f) in enumerate(ws):
                 iw = P.impl_obs_wall(z, w, f)
                 st.evals += 1
                 if iw != [0] + mw[k]:
+                    # (glibc may disagree with the spec here: then this is about glibc, not dateutil)
+                    cand = [w - r["off"]] + ([w - r["dst"]["off"]] if r["dst"] else [])
+                    if any([P.libc_obs(c)[0], P.libc_obs(c)[2]] !=
+                           P.dec_spec_utc(o.call(P.E_SPEC_UTC, enc + [c]), 1)[0][0:3:2]
+                           for c in cand if lo < c < hi):
+                        st.bump("tzlocal_wall_skipped_glibc_differs_from_spec")
+                        continue
                     st.model_diff += 1
                     verdict.violation({"kind": "correspondence: tzlocal differs from the tzlocal model run over "
                                                "the specification as C library",
-                                       "input": {"zone_kind": "tzlocal", "TZ": s, "rule": r, "wall": w, "fold": f,
-                                                 "wall_iso": P.dt_of(w).isoformat()},
+                                       "input": dict(base, wall=w, fold=f, wall_iso=P.dt_of(w).isoformat()),
                                        "impl": iw, "model": [0] + mw[k]},
                                       concrete=bool(g_local and sw[k][0] > 0 and iw[1:] != sw[k][1]))
-                elif g_local and sw[k][0] > 0 and iw[1:] != sw[k][1]:
+                elif g_local and not routed and sw[k][0] > 0 and iw[1:] != sw[k][1]:
                     st.spec_diff += 1
                     verdict.violation({"kind": "implementation differs from the POSIX specification at a wall reading",
-                                       "input": {"zone_kind": "tzlocal", "TZ": s, "rule": r, "wall": w, "fold": f},
+                                       "input": dict(base, wall=w, fold=f),
                                        "impl": iw, "spec": {"class": sw[k][0], "obs": sw[k][1]}})
 
 
@@ -505,7 +623,15 @@ def soup(rng):
     return "".join(rng.choice(toks) for _ in range(n))
 
 
-DEPRECATED = ["EST5EDT,4,0,6,7200,10,0,26,7200,3600", "EST5EDT,4,1,0,7200,10,-1,0,7200,3600",
+# well-formed POSIX TZ strings outside wf_posix (form, string)
+POSIX_FORMS = [("quoted_name", "<+03>-3"), ("quoted_name", "<-03>3<-02>,M3.5.0/2,M10.5.0/3"),
+               ("quoted_name", "<UTC+1>-1"),
+               ("offset_seconds", "LMT0:25:21"), ("offset_seconds", "EST5:00:30EDT4:00:30,M3.2.0,M11.1.0"),
+               ("signed_rule_time", "EST5EDT,M3.2.0/-1,M11.1.0/2"),
+               ("signed_rule_time", "<-02>2<-01>,M3.5.0/-1,M10.5.0/0"),
+               ("plain", "EST5EDT,M3.2.0,M11.1.0"), ("zero_saving", "EST5EDT5,M3.2.0,M11.1.0")]
+
+DEPRECATED = ["xxx,1,2,3,4,5,6,7,8,9", "EST5EDT,4,0,6,7200,10,0,26,7200,3600", "EST5EDT,4,1,0,7200,10,-1,0,7200,3600",
               "EST5EDT,4,1,0,7200,10,-1,0,7200", "GMT0BST,3,0,30,3600,10,0,26,7200",
               "EST,4,1,0,7200,10,-1,0,7200,3600", "EST5EDT,4,1,0,7200,10,-1,0,7200,-3600",
               "EST5EDT,4,1,0,7200,10,-1,0,7200,+3600", "EST5EDT,4,-1,0,7200,10,-1,0,7200,+"]
@@ -534,10 +660,10 @@ def check_parser(verdict, st, o, strings):
         z, status = build_tzstr(s, False)
         zi = zone_header(z) if z is not None else status
         zm = dec_zone(zv)
-        if zi == [2] and s.count(',') < 8:
+        if zi == [2]:
             # tzstr raised TypeError: neither a zone nor the ValueError the property demands
             verdict.violation({"kind": "TypeError instead of a zone or ValueError", "impl": zi, "model": zm,
-                               "input": {"s": s, "posix_offset": False,
+                               "input": {"s": s, "posix_offset": False, "commas": s.count(','),
                                          "parsed_stdabbr": mp[1] if mp[0] == 0 else None,
                                          "parsed_stdoffset": mp[2] if mp[0] == 0 else None}})
         if (zi == ["EXC:OverflowError"] and isinstance(zm, list) and zm[0] == 0 and
@@ -559,6 +685,12 @@ def check_parser(verdict, st, o, strings):
                     it = [P.exc_code(ex)]
                 mt = o.call(P.E_TRANS, [0] + P.estr(s) + [y])
                 st.evals += 1
+                if (it == [P.exc_code(OverflowError())] and len(mt) == 3 and mt[0] == 0 and
+                        not all(DT_MIN_SECS <= v <= DT_MAX_SECS for v in mt[1:])):
+                    # datetime range (absurd hour counts from the token soup push the transition out of
+                    # years 1..9999): the model is totalised over Z, CPython raises -- not modelled
+                    st.bump("transitions_overflow_skipped")
+                    continue
                 if it != mt:
                     st.model_diff += 1
                     verdict.violation({"kind": "correspondence: transitions differ from the model",
@@ -622,10 +754,26 @@ def replay(path):
             print("spec      ", P.dec_spec_utc(o.call(P.E_SPEC_UTC, enc + [inp["utc"]]), 1)[0])
         if "wall" in inp:
             print("spec      ", spec_wall_expect(o, r, [(inp["wall"], inp["fold"])])[0])
+    if r is not None and inp.get("zone_kind") == "tzlocal" and "TZ" in inp:
+        import time as T
+        with P.tz_env(inp["TZ"]):
+            z = tz.tzlocal()
+            tj, tl = P.cpython_time_module_samples()
+            print("samples   ", P.dt_of(tj).isoformat(), P.dt_of(tl).isoformat(), "(CPython init_timezone, this year)")
+            print("time module (impl) ", [-T.timezone, -T.altzone, T.daylight, list(T.tzname)])
+            print("time module (model)", o.call(P.E_LOCAL_INIT, enc + [tj, tl]))
+            if "utc" in inp:
+                print("tzlocal   ", P.impl_obs_utc(z, inp["utc"]))
+                print("glibc     ", P.libc_obs(inp["utc"]))
+                print("model     ", o.call(P.E_LOCAL_UTC, enc + [tj, tl, inp["utc"]]))
     if not inp:
         print(json.dumps(data, indent=1)[:3000])
     o.close()
     return 0
+
+
+DT_MIN_SECS = 86400                               # 0001-01-01T00:00:00 (ordinal 1)
+DT_MAX_SECS = 3652059 * 86400 + 86399             # 9999-12-31T23:59:59
 
 
 def main():
@@ -636,6 +784,7 @@ def main():
     t0 = time.time()
     verdict = C.Verdict(CID, MATCHERS)
     st = Stats()
+    budget = {}
     build_err = None
     build_log = ""
     try:
@@ -665,11 +814,15 @@ def main():
         check_parser(verdict, st, o, [e["s"] for e in corpus if "s" in e])
         # ---- rule stream
         rules = [P.gen_rule(rng) for _ in range(n_rules)]
+        budget.update({"rule_stream_planned": n_rules, "rule_stream_done": 0, "rule_stream_budget_s": 50,
+                       "rule_stream_cut_by_time_budget": False})
         t_stream = time.time()
         for k, r in enumerate(rules):
             check_rule(verdict, st, o, r, rng, years, k, tier, do_local=(k % 3 == 0))
+            budget["rule_stream_done"] = k + 1
             if tier == "quick" and time.time() - t_stream > 50:
                 st.bump("rule_stream_cut_by_budget_at", k)
+                budget["rule_stream_cut_by_time_budget"] = True
                 break
         # ---- tzrange constructor defaults (documented: first Sunday of April 2:00 / last Sunday of
         #      October 2:00 daylight time, saving one hour) against the model and the specification
@@ -803,7 +956,37 @@ def main():
                                                "input": {"s": s, "posix_offset": po}, "impl": zone_header(z),
                                                "model": mz}, concrete=False)
         st.bump("gmt_utc_sign_cases", 2 * 16 * 2 * 2)
+        # ---- POSIX forms outside wf_posix (the theorems do not speak about them): the property says "every
+        #      POSIX-style TZ specification", so a rejection is reported (routed to its open finding);
+        #      when accepted the zone is compared with glibc under TZ=<string> at a year of instants
+        for form, s in POSIX_FORMS:
+            z, status = build_tzstr(s)
+            st.evals += 1
+            st.bump("posix_form_" + form)
+            if z is None:
+                verdict.violation({"kind": "POSIX TZ string rejected", "input": {"s": s, "form": form},
+                                   "impl": status})
+                continue
+            with P.tz_env(s):
+                for u in range(P.ystart(2021) + 4321, P.ystart(2022), 5 * 86400 + 3600):
+                    iu, lb = P.impl_obs_utc(z, u), P.libc_obs(u)
+                    st.evals += 1
+                    if iu[0] != 0 or [iu[3], iu[5]] != [lb[0], lb[2]]:
+                        verdict.violation({"kind": "POSIX TZ string accepted but read differently from glibc",
+                                           "input": {"s": s, "form": form, "utc": u,
+                                                     "utc_iso": P.dt_of(u).isoformat()}, "impl": iu, "libc": lb})
+                        break
         o.close()
+        # ---- coverage floors: a stream that ran (nearly) empty is a failure of the check, not a pass
+        floors = {"rules": 25 if tier == "quick" else 300, "in_guard": 8, "tzlocal_zones": 5,
+                  "tzrange_zones": 8, "parse_ok": 50, "parse_none": 50, "small_scope_M_rules": 10,
+                  "gmt_utc_sign_cases": 128, "posix_form_quoted_name": 1}
+        short = {k: (st.hist.get(k, 0), v) for k, v in floors.items() if st.hist.get(k, 0) < v}
+        if n_mal < 50:
+            short["malformed_strings"] = (n_mal, 50)
+        if short:
+            verdict.violation({"kind": "coverage floor not reached (stream ran empty or was cut too early)",
+                               "input": None, "short": short}, concrete=False)
     if not props["ok"] and not verdict.violations:
         verdict.violation({"kind": "broken proof obligation", "theorem_file": "coq/props/C08.v",
                            "theorems": props["theorems"], "discharged": props["discharged"], "input": None,
@@ -830,6 +1013,7 @@ def main():
         "model_vs_impl_disagreements": st.model_diff,
         "spec_vs_impl_disagreements": st.spec_diff,
         "exhaustive": False,
+        "time_budget": budget,
         "small_scope": "every Mm.w.d start rule (m 2..5, w 1..5, d 0..6; thorough: all, quick: a third) x "
                        "transitions of 2023, 2024, 2100 against the specification",
         "partial_theorems": [t for t in props["theorems"] if t.endswith("_partial")],
